@@ -86,7 +86,7 @@ theorem sim_all {m : Bool} {qi q : Nat} (cx : Ctx m qi q) : ∀ n, IH m qi q n :
           have ih' : IH m qi q (e :: r1).length := ih
           by_cases hk : e = q ∨ e = 92 ∨ e = 114 ∨ (q ≠ 96 ∧ e = 110)
           · exact sim_keep cx hk hg hv ih'
-          · obtain ⟨h117, hd⟩ := guard_esc hg
+          · have hd := guard_esc hg
             have h48 : e ≠ 48 := by intro h; subst h; simp [isDig] at hd
             have hk' : ¬ (e = q ∨ e = 92 ∨ e = 114 ∨ (q ≠ 96 ∧ e = 110) ∨ (e = 48 ∧ ¬ r1.head?.any isOct)) := by
               rintro (h | h | h | h | ⟨h, _⟩)
@@ -106,8 +106,10 @@ theorem sim_all {m : Bool} {qi q : Nat} (cx : Ctx m qi q) : ∀ n, IH m qi q n :
                     by_cases h96 : q = 96
                     · exact hct (Or.inl ⟨h96, h⟩)
                     · exact hk (Or.inr (Or.inr (Or.inr ⟨h96, h⟩)))
-                  refine sim_ident cx hk' (by omega) ⟨hx, h110, ?_, ?_, ?_, ?_⟩ hg hv ih' <;>
-                    (intro h; apply hct; simp [h])
+                  by_cases hu : e = 117
+                  · subst hu; exact sim_uni cx hg hv ih'
+                  · refine sim_ident cx hk' (by omega) ⟨hx, h110, ?_, ?_, ?_, ?_⟩ hu hg hv ih' <;>
+                      (intro h; apply hct; simp [h])
       · by_cases hnl : c = 10 ∨ c = 13
         · exact sim_newline cx hnl hg hv ih
         · obtain ⟨us, k, v', hst, hv', hw⟩ := valid_cons hv
